@@ -96,6 +96,7 @@ package middleware
 //@   modifies msg.ctx
 //@   assert @call:h: msg.ctx != nil && ctxparent(msg.ctx) == old(ctxOf(msg)) && ctxtimeout(msg.ctx) == timeout && (forall k any :: ctxval(msg.ctx, k) == ctxval(old(ctxOf(msg)), k)) [deadline-visible-during-the-call]
 //@   panics-ensures panicked(H, old(calls(H))) [only-the-handler-panics]
+//@   panics-ensures !cancelled(old(ctxOf(msg))) ==> !cancelled(ctxOf(msg)) [context-not-left-cancelled-when-the-handler-panics]
 
 //@ func MessageCorrelationID
 //@   requires message != nil
